@@ -1,13 +1,29 @@
 """C14 -- closed-form transformers (partial): the clauses visible in the shape of the code.
 
-R1  length / position maps (abstract interpretation, array terms): PaddingTransformer, TruncationTransformer,
-    SlidingWindowSegmenter, TSInterpolator grids, interval slices of IntervalSegmenter /
-    RandomIntervalSegmenter / RandomIntervalFeatureExtractor.
-R2  rule-name <-> operator tables and option forwarding: Imputer dispatch, CosineTransformer, MeanTransformer,
-    ACF / PACF keyword forwarding, Tabularizer / ColumnConcatenator converters, TabularToSeriesAdaptor,
-    every constructor option is read on a path from fit / transform.
-R3  row correspondence: every per-instance loop reads input row i, writes output row i, in the iteration
-    order of the instances, without state carried between rows.
+Every anchored method is interpreted once, symbolically, into array terms (``_c14_dom.XInterp``); the rules are
+identities / entailments over those terms, evaluated per configuration scenario (option None / given, container type,
+rule name).
+
+R1  length / position maps.  PaddingTransformer: fitted length (max over all cells / the option), ``_create_pad`` = fresh
+    array of length pad_length_ filled with fill_value that receives series[0:len) at [0:len), tight rejecting guard,
+    every cell padded from itself.  TruncationTransformer: index progression arange(lower_) / arange(lower_, upper),
+    positional indexing, tight guard, in-bounds.  SlidingWindowSegmenter: edge padding of floor(w/2) on both ends,
+    strided view (n_timepoints, w) with unit strides (element (j, k) = padded[j + k]), last read inside the padded row,
+    buffer shapes, one window per time point, row i = instance i.  TSInterpolator: source grid linspace(0, 1, len(cell))
+    on the cell's values, linear, target grid linspace(0, 1, length), applied to every cell.  Interval slices: every
+    fitted (start, end) / index piece is sliced as the half-open range it denotes on the time axis, the random
+    generators draw 0 <= start < end <= n_timepoints from non-empty ranges, the feature extractor delegates to a
+    RandomIntervalSegmenter with its own options.
+R2  rule-name <-> operator tables and option forwarding.  Imputer: every documented method name reaches the documented
+    pandas operator with the documented argument (and never the unknown-method error), unknown names are rejected, the
+    placeholder is replaced by NaN first, drift / forecaster predict the in-sample horizon -arange(len(Z)) with the
+    documented forecaster and fill the gaps of the *input*; CosineTransformer, MeanTransformer; ACF / PACF keyword
+    forwarding; Tabularizer / ColumnConcatenator converter per container; TabularToSeriesAdaptor; RandomIntervalSegmenter
+    -> generator forwarding; every constructor option is read on a path from fit / transform.
+R3  row correspondence.  Every per-instance loop (index loop, direct iteration, zip / enumerate, comprehension) enumerates
+    all instances once in order, reads only its own instance, writes / appends its result at its own position
+    unconditionally, carries no local or attribute state into the next instance, and the results are assembled in loop
+    order.
 
 Not decided (DESIGN 3/C14): the numeric formulas (PAA frame means, interpolated values, ACF, slopes).
 """
@@ -19,8 +35,9 @@ from ..cfg import CFG
 from ..index import AnalysisError, dotted
 from ..lin import Lin, Facts
 from .. import astq
-from ._c14_dom import (XInterp, Src, Cell, Sub, Buf, AccList, ListV, Pad, Strided, Lsp, Pieces, Piece, Rows, Row, Cols,
-                       EVec, CallV, Loc, Inst, KS, NDS, carried_names, target_names, reordered, as_listv, shape_of, subst, walk, ret_values, ZERO, ONE)
+from ._c14_dom import (XInterp, Src, Cell, Sub, Buf, AccList, ListV, Pad, Strided, Lsp, Pieces, Piece, Rows, Row,
+                       Cols, EVec, CallV, Inst, KS, NDS, ZipV, LocalFn, LamV, BoundM, carried_names, target_names,
+                       reordered, as_listv, seq_len, children, relevant, shape_of, walk, ZERO, ONE)
 
 PADDER = "sktime/transformations/panel/padder.py"
 TRUNC = "sktime/transformations/panel/truncation.py"
@@ -50,77 +67,71 @@ def sym(name):
 
 
 # --------------------------------------------------------------------- aggregate helpers
-def agg_shape(repo, module, fn):
-    """Normal form of helpers such as ``max(map(lambda s: len(s), row)) over rows``:
-    nested tuple like ('max', ('max', ('len', ('elem', ('elem', 'P'))))) or None."""
+def row_aggregate(it, kind, seq, st):
+    """``max`` / ``min`` over a list of cell lengths (one row) or over a list of such row aggregates (the panel):
+    returns the symbol ``maxlen(X)`` / ``minlen(X)`` (``... part of X`` when not every row / column is visited)."""
+    seq = as_listv(seq)
+    if not (isinstance(seq, ListV) and not seq.filtered and isinstance(seq.elem, Lin)):
+        return None
+    rows = it.__dict__.setdefault("rowaggs", {})
+    src = seq.it
+    if seq.var is None:
+        nm = _sym(seq.elem)
+        if nm in rows and rows[nm][0] == kind:
+            it.__dict__.setdefault("partial", set()).add("%slen(%s)" % (kind, rows[nm][1].name))
+            return Lin.sym("%slen(part of %s)" % (kind, rows[nm][1].name))
+        return None
+    if isinstance(src, Sub) and isinstance(src.base, Src) and src.how == "iloc" and src.spec and src.spec[0][0] == "i":
+        panel, row = src.base, src.spec[0][1]
+        if seq.elem == Cell(panel, row, seq.var).length or (len(src.spec) == 2 and src.spec[1][0] == "s"
+                                                            and any(seq.elem == Cell(panel, row, seq.var + d).length
+                                                                    for d in (src.spec[1][1] or ZERO,))):
+            full = len(src.spec) == 1
+            r = Lin.sym("%slen(%s%s[%r])" % (kind, "" if full else "part of ", panel.name, row))
+            rows[_sym(r)] = (kind, panel, row, full)
+            return r
+        return None
+    nm = _sym(seq.elem)
+    if nm in rows:
+        k2, panel, row, full = rows[nm]
+        if row != seq.var:
+            return None
+        allrows = src == Rng(ZERO, panel.shape[0]) or all_rows_panel(src) is panel or all_rows_panel(src) == panel
+        if k2 != kind:
+            return Lin.sym("agg?(%s)" % panel.name)
+        if full and allrows:
+            r = Lin.sym("%slen(%s)" % (kind, panel.name))
+            it.__dict__.setdefault("measures", set()).add(_sym(r))
+            return r
+        it.__dict__.setdefault("partial", set()).add("%slen(%s)" % (kind, panel.name))
+        return Lin.sym("%slen(part of %s)" % (kind, panel.name))
+    return None
+
+
+def helper_aggregate(repo, module, fn, cls=None):
+    """What a length helper computes on the list of all rows of a panel P: 'max' / 'min' (of all cell lengths) or a
+    description of something else / None when it cannot be interpreted."""
+    it = mk_interp(repo)
+    P = Src("P", "nested")
+    v = Lin.sym("r#0")
+    probe = ListV(Sub(P, [("i", v)], "iloc"), v, Rng(ZERO, P.shape[0]))
     params = astq.param_names(fn)
+    static = cls is not None and cls.is_static(fn.name)
+    if cls is not None and not static:
+        params = params[1:]
     if len(params) != 1:
         return None
-    local = {st.name: st for st in fn.body if isinstance(st, ast.FunctionDef)}
-    rets = [st for st in fn.body if isinstance(st, ast.Return)]
-    if len(rets) != 1 or rets[0].value is None:
+    args = {params[0]: probe}
+    if cls is not None and not static:
+        args["self"] = SelfV(cls)
+    traces, _ = it.run_function(Frame(module, fn, cls, cls), args, State())
+    vals = [x for _, x in distinct_returns(traces)]
+    if len(vals) != 1 or not isinstance(vals[0], Lin):
         return None
-
-    def builtin(name, env):
-        return name not in env and name not in local and repo.resolve_name(module, name) is None
-
-    def apply(f, arg, env, locs):
-        if isinstance(f, ast.Lambda):
-            ps = [a.arg for a in f.args.args]
-            if len(ps) != 1:
-                return None
-            e2 = dict(env)
-            e2[ps[0]] = arg
-            return ev(f.body, e2, locs)
-        if isinstance(f, ast.Name):
-            if f.id in locs:
-                g = locs[f.id]
-                ps = astq.param_names(g)
-                inner = {st.name: st for st in g.body if isinstance(st, ast.FunctionDef)}
-                rr = [st for st in g.body if isinstance(st, ast.Return)]
-                if len(ps) != 1 or len(rr) != 1 or rr[0].value is None:
-                    return None
-                return ev(rr[0].value, {ps[0]: arg}, dict(locs, **inner))
-            if f.id == "len" and builtin("len", env):
-                return ("len", arg)
-        return None
-
-    def ev(e, env, locs):
-        if isinstance(e, ast.Name):
-            return env.get(e.id)
-        if isinstance(e, ast.Call) and isinstance(e.func, ast.Name) and not e.keywords:
-            nm = e.func.id
-            if nm in ("max", "min") and builtin(nm, env) and len(e.args) == 1:
-                a = e.args[0]
-                inner = None
-                if isinstance(a, ast.Call) and isinstance(a.func, ast.Name) and a.func.id == "map" and builtin("map", env) \
-                        and len(a.args) == 2:
-                    xs = ev(a.args[1], env, locs)
-                    inner = apply(a.args[0], ("elem", xs), env, locs) if xs is not None else None
-                elif isinstance(a, (ast.GeneratorExp, ast.ListComp)) and len(a.generators) == 1 and not a.generators[0].ifs \
-                        and isinstance(a.generators[0].target, ast.Name):
-                    xs = ev(a.generators[0].iter, env, locs)
-                    if xs is not None:
-                        e2 = dict(env)
-                        e2[a.generators[0].target.id] = ("elem", xs)
-                        inner = ev(a.elt, e2, locs)
-                return (nm, inner) if inner is not None else None
-            if nm == "len" and builtin("len", env) and len(e.args) == 1:
-                x = ev(e.args[0], env, locs)
-                return ("len", x) if x is not None else None
-            if nm in locs and len(e.args) == 1:
-                x = ev(e.args[0], env, locs)
-                return apply(e.func, x, env, locs) if x is not None else None
-        return None
-
-    return ev(rets[0].value, {params[0]: "P"}, local)
-
-
-def agg_kind(shape):
     for k in ("max", "min"):
-        if shape == (k, (k, ("len", ("elem", ("elem", "P"))))):
+        if vals[0] == Lin.sym("%slen(P)" % k):
             return k
-    return None
+    return repr(vals[0])
 
 
 def all_rows_panel(v):
@@ -137,7 +148,7 @@ def all_rows_panel(v):
 # ------------------------------------------------------------------------------- hooks
 def hooks(it, frame, call, fname, args, kwargs, st):
     simple = (fname or "").split(".")[-1]
-    sym_ = it.repo.resolve_dotted(frame.module, fname) if fname else None
+    sym_ = it.resolve_sym(fname, frame)
     target = sym_.dotted if sym_ is not None else None
     if target == "sktime.utils.validation.panel.check_X":
         a = args[0] if args else kwargs.get("X")
@@ -180,13 +191,11 @@ def hooks(it, frame, call, fname, args, kwargs, st):
         a = args[0] if args else None
         if isinstance(a, Src):
             return Arr("time_index(%s)" % a.name, Lin.sym("m(%s)" % a.name), "index")
-    if sym_ is not None and sym_.kind == "func" and args:
-        shp = _agg_cache(it.repo, sym_.module, sym_.target)
-        if shp is not None:
-            panel = all_rows_panel(args[0])
-            if panel is not None:
-                kind = agg_kind(shp)
-                return Lin.sym("%slen(%s)" % (kind, panel.name)) if kind else Lin.sym("agg?(%s)" % panel.name)
+    ext_ = it.ext_name(fname, frame)
+    if ext_ in ("builtins.max", "builtins.min") and len(args) == 1 and not kwargs:
+        r = row_aggregate(it, ext_[-3:], args[0], st)
+        if r is not None:
+            return r
     if sym_ is not None and sym_.kind == "class" and sym_.target.name in CONSTRUCT and "*" not in kwargs:
         cls = sym_.target
         hit = it.repo.lookup_method(cls, "__init__")
@@ -197,28 +206,9 @@ def hooks(it, frame, call, fname, args, kwargs, st):
     if isinstance(call.func, ast.Attribute):
         recv = it.ev(call.func.value, st, frame)
         meth = call.func.attr
-        if isinstance(recv, SelfV) and recv.cls is not None:
-            hit = it.repo.lookup_method(recv.cls, meth)
-            if hit is not None and args:
-                shp = _agg_cache(it.repo, hit[0].module, hit[1])
-                if shp is not None:
-                    panel = all_rows_panel(args[0])
-                    if panel is not None:
-                        kind = agg_kind(shp)
-                        return Lin.sym("%slen(%s)" % (kind, panel.name)) if kind else Lin.sym("agg?(%s)" % panel.name)
         if meth == "randint" and isinstance(recv, CallV) and recv.name.endswith("check_random_state"):
             return _randint(it, args, kwargs, st)
     return NotImplemented
-
-
-_AGG = {}
-
-
-def _agg_cache(repo, module, fn):
-    key = id(fn)
-    if key not in _AGG or _AGG[key][0] is not fn:
-        _AGG[key] = (fn, agg_shape(repo, module, fn))
-    return _AGG[key][1]
 
 
 def _randint(it, args, kwargs, st):
@@ -238,9 +228,14 @@ def _randint(it, args, kwargs, st):
         return Opq("randint", args)
     it.uid += 1
     r = Lin.sym("rand#%d" % it.uid)
+    if not hasattr(it, "randints"):
+        it.randints = []
+    it.randints.append((lo, hi, it.all_facts(st.facts)))  # facts known *before* the draw
     it.gfact(st, lo, "<=", r, "randint lower bound (inclusive)")
     it.gfact(st, r, "<=", hi - 1, "randint upper bound (exclusive)")
-    return EVec(r)
+    ev = EVec(r)
+    ev.size = kwargs.get("size", args[2] if len(args) > 2 else None)
+    return ev
 
 
 def mk_interp(repo, **kw):
@@ -283,8 +278,26 @@ def match(v, target):
     return False
 
 
+def entailed(it, facts, q):
+    """True if ``q <= 0`` follows; False if not; None if it does not follow but mentions a max/min-derived symbol whose
+    lower bounds the affine facts cannot express."""
+    if it.all_facts(facts, q).entails(q) is not None:
+        return True
+    if any(x.startswith(("max(", "min(")) for x in q.symbols()):
+        return None
+    return False
+
+
 def normal_returns(traces):
     return [(s, o[1]) for s, o in traces if o[0] == "return"]
+
+
+def distinct_returns(traces):
+    vals = []
+    for s, v in normal_returns(traces):
+        if not any(v is w or v == w for _, w in vals):
+            vals.append((s, v))
+    return vals
 
 
 def one_return(ctx, rule, construct, traces, loc):
@@ -297,6 +310,16 @@ def one_return(ctx, rule, construct, traces, loc):
         ctx.undecided(rule, construct, "expected one return value, found %d: %r" % (len(vals), [v for _, v in vals][:3]), loc)
         return None, None
     return vals[0]
+
+
+def cell_state(ctx, construct, it, loc):
+    """A per-cell helper must not keep state on ``self`` that it reads back (it would leak from one cell to the next)."""
+    stores = {e.spec for e in it.events if e.kind == "attr-store"}
+    loads = {e.spec for e in it.events if e.kind == "attr-load"}
+    car = sorted(stores & loads)
+    ctx.check(not car, "R3", construct, "the per-cell helper keeps no state on self",
+              "the per-cell helper stores self.%s and reads it back: what is computed for one cell depends on the cells "
+              "processed before" % ", self.".join(car), loc, witness={"attributes": car})
 
 
 # ----------------------------------------------------------------------------- R1: pad
@@ -327,6 +350,7 @@ def r1_pad(ctx, repo):
             ctx.check(match(buf.fill, Opq("self.fill_value")), "R1", c + ":fill", "unfilled positions hold self.fill_value",
                       "unfilled positions hold %r, expected self.fill_value" % (buf.fill,), loc)
             check_copy_map(ctx, c + ":map", buf, series, L, loc)
+    cell_state(ctx, c + ":cell-state", it, loc)
     # ---- fit
     for scen, val, want in (("None", K(None), sym("maxlen(X)")), ("given", sym("pad_length"), sym("pad_length"))):
         it = mk_interp(repo)
@@ -339,9 +363,10 @@ def r1_pad(ctx, repo):
                   "pad_length_ = %r" % (want,), "pad_length_ is %r, expected %r" % (got, want), ctx.loc(mod, fn))
     # ---- helper
     fn = repo.func(PADDER, "_get_max_length")
-    shp = agg_shape(repo, mod, fn)
-    ctx.check(None if shp is None else agg_kind(shp) == "max", "R1", "padder._get_max_length:shape",
-              "max over rows of max over cells of len", "helper computes %r, expected max(max(len))" % (shp,), ctx.loc(mod, fn))
+    shp = helper_aggregate(repo, mod, fn)
+    ctx.check(None if shp is None else shp == "max", "R1", "padder._get_max_length:shape",
+              "max over rows of max over cells of len", "helper computes %s, expected the maximum over all cell lengths" % (shp,),
+              ctx.loc(mod, fn))
     # ---- transform
     it = mk_interp(repo)
     sv = SelfV(cls)
@@ -397,7 +422,13 @@ def guard_tight(ctx, construct, it, facts, lin, what, loc):
     """The surviving trace knows exactly ``lin <= 0`` (the guard rejects iff lin > 0)."""
     f = it.floor_facts(facts)
     sl = f.slack(lin)
-    if sl is None:
+    measured = [x for x in lin.symbols() if x.startswith(("maxlen(", "minlen("))]
+    if sl is None and any(x in getattr(it, "partial", set()) for x in measured):
+        ctx.violation("R1", construct, "the guard measures only a part of the panel (not every row / column): %s is not bounded for the "
+                      "rest" % ", ".join(measured), loc)
+    elif sl is None and any(x not in getattr(it, "measures", set()) for x in measured):
+        ctx.undecided("R1", construct, "the length measured by transform is not understood (no %s computed)" % ", ".join(measured), loc)
+    elif sl is None:
         ctx.violation("R1", construct, "transform does not reject %s (no dominating guard bounds %r)" % (what, lin), loc)
     else:
         ctx.check(sl == 0, "R1", construct, "rejects exactly when %s" % what,
@@ -444,9 +475,10 @@ def r1_truncate(ctx, repo):
     fn = cls.methods.get("get_min_length")
     if fn is None:
         raise AnalysisError("anchor missing: TruncationTransformer.get_min_length")
-    shp = agg_shape(repo, mod, fn)
-    ctx.check(None if shp is None else agg_kind(shp) == "min", "R1", "TruncationTransformer.get_min_length:shape",
-              "min over rows of min over cells of len", "helper computes %r, expected min(min(len))" % (shp,), ctx.loc(mod, fn))
+    shp = helper_aggregate(repo, mod, fn, cls)
+    ctx.check(None if shp is None else shp == "min", "R1", "TruncationTransformer.get_min_length:shape",
+              "min over rows of min over cells of len", "helper computes %s, expected the minimum over all cell lengths" % (shp,),
+              ctx.loc(mod, fn))
     for scen, val, want in (("None", K(None), sym("minlen(X)")), ("given", sym("lower"), sym("lower"))):
         it = mk_interp(repo)
         sv = SelfV(cls)
@@ -463,50 +495,53 @@ def r1_truncate(ctx, repo):
         traces, fst, k, fn = run_method(repo, it, sv, "transform", {"X": Src("X", "raw")})
         loc = ctx.loc(mod, fn)
         c = "TruncationTransformer.transform[upper=%s]" % scen
-        s, ret = one_return(ctx, "R1", c + ":value", traces, loc)
-        if ret is None:
-            continue
-        guard_tight(ctx, c + ":guard", it, s.facts, LO - sym("minlen(X)"), "min cell length < lower_", loc)
-        cells = per_cell(ctx, c + ":per-cell", ret, loc)
-        if cells is None:
-            continue
-        cell, val = cells
-        if not (isinstance(val, Sub) and val.base == cell and len(val.spec) == 1):
-            ctx.undecided("R1", c + ":cell-index", "cell value is not an indexing of that cell: %r" % (val,), loc)
-            continue
-        sp = val.spec[0]
-        got = sp[1] if sp[0] == "v" else (Rng(sp[1] if sp[1] is not None else ZERO, sp[2]) if sp[0] == "s" and sp[2] is not None else None)
-        verdict = None
-        if got is not None and val.how == "loc":
-            verdict = False
-        elif got is not None and (val.how == "iloc" or sp[0] == "s"):
-            verdict = got == want
-        ctx.check(verdict, "R1", c + ":cell-index",
-                  "every cell is indexed by position with %r" % (want,),
-                  "cells are indexed %s with %r, expected positions %r"
-                  % ("by label" if val.how != "iloc" else "by position", got, want), loc, witness={"index": repr(got)})
-        if scen == "None" and isinstance(got, Rng):
-            f = it.floor_facts(s.facts)
-            f.add_cmp(sym("minlen(X)"), "<=", cell.length, "shortest cell <= cell length")
-            ctx.check(f.entails((got.hi - 1) - (cell.length - 1)) is not None, "R1", c + ":in-bounds",
-                      "last kept position < len(cell) follows from the guard",
-                      "last kept position %r is not bounded by the cell length" % (got.hi - 1,), loc)
+        rets = distinct_returns(traces)
+        if not rets:
+            ctx.undecided("R1", c + ":value", "transform has no normal return", loc)
+        for s, ret in rets:
+            truncate_return(ctx, c, it, s, ret, scen, want, LO, loc)
 
+
+def truncate_return(ctx, c, it, s, ret, scen, want, LO, loc):
+    guard_tight(ctx, c + ":guard", it, s.facts, LO - sym("minlen(X)"), "min cell length < lower_", loc)
+    cells = per_cell(ctx, c + ":per-cell", ret, loc)
+    if cells is None:
+        return
+    cell, val = cells
+    if not (isinstance(val, Sub) and val.base == cell and len(val.spec) == 1):
+        ctx.undecided("R1", c + ":cell-index", "cell value is not an indexing of that cell: %r" % (val,), loc)
+        return
+    sp = val.spec[0]
+    got = sp[1] if sp[0] == "v" else (Rng(sp[1] if sp[1] is not None else ZERO, sp[2]) if sp[0] == "s" and sp[2] is not None else None)
+    verdict = None
+    if got is not None and val.how == "loc":
+        verdict = False
+    elif got is not None and (val.how == "iloc" or sp[0] == "s"):
+        verdict = got == want
+    ctx.check(verdict, "R1", c + ":cell-index",
+              "every cell is indexed by position with %r" % (want,),
+              "cells are indexed %s with %r, expected positions %r"
+              % ("by label" if val.how != "iloc" else "by position", got, want), loc, witness={"index": repr(got)})
+    if scen == "None" and isinstance(got, Rng):
+        f = it.all_facts(s.facts)
+        f.add_cmp(sym("minlen(X)"), "<=", cell.length, "shortest cell <= cell length")
+        inb = f.entails((got.hi - 1) - (cell.length - 1)) is not None
+        if not inb and "minlen(X)" not in getattr(it, "measures", set()):
+            inb = None
+        ctx.check(inb, "R1", c + ":in-bounds",
+                  "last kept position < len(cell) follows from the guard",
+                  "last kept position %r is not bounded by the cell length" % (got.hi - 1,), loc)
 
 
 # ------------------------------------------------------------------- R1: sliding windows
 def dedupe(events):
     seen, out = set(), []
     for e in events:
-        k = (id(e.node), tuple(id(l.node) for l in e.loops))
+        k = (e.kind, id(e.node), tuple(id(l.node) for l in e.loops))
         if k not in seen:
             seen.add(k)
             out.append(e)
     return out
-
-
-def own_loops(acc, loops):
-    return [l for l in loops if l not in acc.created_loops]
 
 
 def r1_sliding(ctx, repo):
@@ -534,30 +569,28 @@ def r1_sliding(ctx, repo):
         ctx.undecided("R1", c + ":output", "return value is not the transpose of a frame filled column by column: %r" % (ret,), loc)
         return
     stores = dedupe([e for e in it.events if e.kind == "store" and e.base is df])
-    if len(stores) != 1 or len(stores[0].spec) != 1 or stores[0].spec[0][0] != "i" or not isinstance(stores[0].value, AccList):
+    if len(stores) != 1 or len(stores[0].spec) != 1 or stores[0].spec[0][0] != "i" \
+            or not isinstance(as_listv(stores[0].value), ListV):
         ctx.undecided("R1", c + ":output", "expected one column store df[i] = <list of windows>, found %r" % (stores,), loc)
         return
     e = stores[0]
     ivar = e.spec[0][1]
     lp = [l for l in e.loops if l.var is not None and l.var == ivar]
-    ctx.check(len(lp) == 1 and lp[0].it == Rng(ZERO, n), "R1", c + ":output",
+    ctx.check(len(lp) == 1 and position_loop(lp[0], n, it), "R1", c + ":output",
               "column i of the frame (row i after the transpose) is instance i, i in range(n_instances)",
               "frame columns are keyed by %r in %r, expected the instance index over range(n_instances)" % (ivar, [l.it for l in lp]), loc)
-    acc = e.value
-    if len(acc.appends) != 1 or acc.other:
-        ctx.undecided("R1", c + ":windows", "window list is not filled by a single append: %r" % (acc,), loc)
-        return
-    val, loops, atoms, node = acc.appends[0]
-    own = own_loops(acc, loops)
+    wl = as_listv(e.value)
+    val = wl.elem
     win = val.arg(0, "data") if isinstance(val, CallV) and val.name == "pandas.Series" else val
-    if not (len(own) == 1 and own[0].var is not None and isinstance(win, Sub) and isinstance(win.base, Strided)
+    if not (wl.var is not None and not wl.filtered and isinstance(win, Sub) and isinstance(win.base, Strided)
             and len(win.spec) == 1 and win.spec[0][0] == "i"):
-        ctx.undecided("R1", c + ":windows", "appended value is not row j of a strided view: %r under %r" % (val, own), loc)
+        ctx.undecided("R1", c + ":windows", "list element is not row j of a strided view: %r over %r" % (val, wl.it), loc)
         return
-    jvar, sv_ = own[0].var, win.base
-    ctx.check(own[0].it == Rng(ZERO, m) and win.spec[0][1] == jvar, "R1", c + ":window-count",
+    jvar, sv_ = wl.var, win.base
+    jlen = wl.it.length() if isinstance(wl.it, Rng) and wl.it.lo == ZERO else (seq_len(wl.it, it) if not isinstance(wl.it, Rng) else None)
+    ctx.check(jlen is not None and jlen == m and reordered(wl.it) is None and win.spec[0][1] == jvar, "R1", c + ":window-count",
               "one window per time point, window j = view[j], j in range(n_timepoints)",
-              "windows are enumerated as view[%r] for %r, expected view[j], j in range(n_timepoints)" % (win.spec[0][1], own[0].it), loc)
+              "windows are enumerated as view[%r] for %r, expected view[j], j in range(n_timepoints)" % (win.spec[0][1], wl.it), loc)
     ctx.check(sv_.shape == [m, W], "R1", c + ":view-shape", "strided view has shape (n_timepoints, window_length)",
               "strided view has shape %r, expected (n_timepoints, window_length)" % (sv_.shape,), loc)
     ctx.check(sv_.unit, "R1", c + ":hop", "both strides are one item: element (j, k) = padded[j + k] (hop size 1)",
@@ -634,7 +667,7 @@ def r1_interpolate(ctx, repo):
                                                            and xs.endpoint == K(True)),
                       "R1", c + ":source-grid", "source grid = linspace(0, 1, len(cell))",
                       "source grid is %r, expected linspace(0, 1, len(cell))" % (xs,), loc)
-            ctx.check(match(ys, cell), "R1", c + ":source-values", "interpolant is fitted on the values of that cell",
+            ctx.check(False if reordered(ys) == cell else match(ys, cell), "R1", c + ":source-values", "interpolant is fitted on the values of that cell",
                       "interpolant is fitted on %r, expected the cell's values" % (ys,), loc)
             kind = b.get("kind", K("linear"))
             ctx.check(kind == K("linear"), "R1", c + ":kind", "linear interpolation",
@@ -648,6 +681,7 @@ def r1_interpolate(ctx, repo):
                 ok = g.start == xs.start and g.stop == xs.stop and as_lin_val(g.num) == LEN and g.endpoint == K(True)
             ctx.check(ok, "R1", c + ":target-grid", "target grid = linspace(0, 1, self.length): same end points, requested length",
                       "target grid is %r; expected %r points sharing the end points of the source grid %r" % (g, LEN, xs), loc)
+    cell_state(ctx, c + ":cell-state", it, loc)
     # cell-wise application chain
     for meth, arg, target in (("_resize_col", Src("coll", "series"), "_resize_cell"), ("transform", Src("X", "raw"), "_resize_col")):
         it = mk_interp(repo)
@@ -665,10 +699,25 @@ def r1_interpolate(ctx, repo):
             recv = ret.recv
             same = isinstance(recv, Src) and recv.name == arg.name
             fobj = ret.arg(0, "func")
-            ok = same and fobj == Opq("self." + target) and repo.lookup_method(cls, target) is not None \
-                and not (set(ret.kwargs) - {"func"}) and len(ret.args) <= 1
+            extra = {k_: v_ for k_, v_ in ret.kwargs.items() if k_ != "func"}
+            if meth == "transform" and extra.get("axis") in (ZERO, K("index")):
+                extra.pop("axis")
+            fsame = same_function(it, fobj, BoundM(sv, target), Src("probe", "series", [sym("Lp")]), Frame(k.module, fn, cls, k))
+            ok = fsame if fsame is None else (same and fsame and not extra and len(ret.args) <= 1)
         ctx.check(ok, "R1", "TSInterpolator.%s:apply" % meth, "%s applies self.%s to every element" % (meth, target),
                   "%s returns %r, expected <input>.apply(self.%s)" % (meth, ret, target), ctx.loc(mod, fn))
+
+
+def same_function(it, f, g, probe, frame):
+    """Do two function values compute the same abstract result on a probe argument (eta-equivalence included)?"""
+    if f == g:
+        return True
+    st1, st2 = State(), State()
+    a = it.call_value(f, [probe], {}, None, st1, frame)
+    b = it.call_value(g, [probe], {}, None, st2, frame)
+    if a is NotImplemented or b is NotImplemented:
+        return None if isinstance(f, (LamV, LocalFn, BoundM)) else False
+    return a == b
 
 
 # -------------------------------------------------------------------- R1: interval slices
@@ -696,6 +745,16 @@ def generic_cols(it, cols):
 
 def check_slices(ctx, construct, it, panel, time_axis, facts, loc, fitted_len=None):
     """Every slice of ``panel`` along the time axis made while iterating the fitted intervals is start:end."""
+    for ev_ in it.events:
+        for l in ev_.loops:
+            if isinstance(l.it, Sub) and isinstance(l.it.base, (Rows, Pieces, Cols)):
+                ctx.violation("R1", construct, "only a part of the fitted intervals is used: the loop iterates %r" % (l.it,), loc)
+                return
+            inner = reordered(l.it)
+            if inner is not None and any(isinstance(x, (Rows, Pieces, Cols)) for x in walk(inner)):
+                ctx.violation("R1", construct, "the fitted intervals are re-ordered / de-duplicated before use (%r): output columns "
+                              "no longer correspond to the fitted intervals in their order" % (l.it,), loc)
+                return
     loads = dedupe([e for e in it.events if e.kind == "load" and e.base == panel and any(x[0] == "s" for x in e.spec)])
     if len(loads) != 1:
         ctx.undecided("R1", construct, "expected one interval slice of the input, found %d" % len(loads), loc)
@@ -703,6 +762,14 @@ def check_slices(ctx, construct, it, panel, time_axis, facts, loc, fitted_len=No
     e = loads[0]
     spec = list(e.spec) + [("a",)] * (len(panel.shape) - len(e.spec))
     others = [x for i, x in enumerate(spec) if i != time_axis]
+    part = [l for l in e.loops if isinstance(l.it, Sub) and isinstance(l.it.base, (Rows, Pieces, Cols))]
+    if part:
+        ctx.violation("R1", construct, "only a part of the fitted intervals is used: the loop iterates %r" % (part[0].it,), loc)
+        return
+    if any(x == ("x", Opq("reversed-axis", [])) for i, x in enumerate(spec) if i != time_axis):
+        ctx.violation("R1", construct, "the interval slice %r reverses an axis other than time: instances / columns of the segment are "
+                      "emitted in reverse order" % (e.spec,), loc)
+        return
     if any(x[0] == "x" for x in spec):
         ctx.undecided("R1", construct, "interval slice with an index that is not understood: %r" % (e.spec,), loc)
         return
@@ -729,6 +796,29 @@ def check_slices(ctx, construct, it, panel, time_axis, facts, loc, fitted_len=No
         ctx.undecided("R1", construct, "fitted interval table not understood: %r" % (itv,), loc)
         return
     wlo, whi, what = ext
+    for ev_ in it.events:
+        if ev_.kind == "mutate" and lp[0] in ev_.loops and isinstance(ev_.base, AccList) and lp[0] not in ev_.base.created_loops \
+                and ev_.spec in ("insert", "pop", "remove", "sort", "reverse"):
+            ctx.violation("R1", construct, "the segments are collected with %s(): their order is not the order of the fitted intervals "
+                          "(and of the column names)" % ev_.spec, loc)
+            return
+    for cv in it.calls:
+        if lp[0] in cv.loops:
+            for a in list(cv.args) + list(cv.kwargs.values()):
+                if a == panel:
+                    ctx.violation("R1", construct, "inside the interval loop %s(...) receives the whole input instead of the interval slice"
+                                  % cv.name, loc)
+                    return
+                inner = reordered(a)
+                if isinstance(inner, Sub) and inner.base == panel:
+                    ctx.violation("R1", construct, "the interval slice is re-ordered (%r) before the features are computed" % (a,), loc)
+                    return
+    if lo == wlo and hi + 1 == whi:
+        # its own construct key: the generic ':slice' key stays available for any other mismatch
+        ctx.violation("R1", construct + ":last-point", "slice [%r : %r) but the fitted interval (%s) covers [%r : %r) -- the last point "
+                      "of every interval is dropped" % (lo, hi, what, wlo, whi), loc,
+                      witness={"slice": [repr(lo), repr(hi)], "fitted": [repr(wlo), repr(whi)]})
+        return
     ctx.check(lo == wlo and hi == whi, "R1", construct,
               "slice [%r : %r) covers exactly the fitted interval (%s)" % (lo, hi, what),
               "slice [%r : %r) but the fitted interval (%s) covers [%r : %r)%s"
@@ -736,7 +826,7 @@ def check_slices(ctx, construct, it, panel, time_axis, facts, loc, fitted_len=No
               witness={"slice": [repr(lo), repr(hi)], "fitted": [repr(wlo), repr(whi)]})
     if isinstance(itv, Cols) and fitted_len is not None and lo == wlo and hi == whi:
         for nm, q in (("start>=0", ZERO - lo), ("end<=n_timepoints", hi - fitted_len), ("non-empty", lo + 1 - hi)):
-            ctx.check(it.all_facts(facts, q).entails(q) is not None, "R1", construct + ":" + nm,
+            ctx.check(entailed(it, facts, q), "R1", construct + ":" + nm,
                       "fitted random interval satisfies %s" % nm,
                       "the bounds of the random draws do not entail %s (obligation %r <= 0)" % (nm, q), loc)
 
@@ -763,7 +853,8 @@ def r1_intervals(ctx, repo):
         sv.attrs.update(attrs)
         pre = Facts()
         pre.add_cmp(sym("min_length"), ">=", 1, "min_length validated by check_window_length")
-        pre.add_cmp(m, ">=", 1, "series are non-empty")
+        pre.add_cmp(m, ">=", 2, "series have at least two points")
+        pre.add_cmp(m, ">=", sym("min_length"), "series are at least min_length long")
         traces, fst, k, fn = run_method(repo, it, sv, "fit", {"X": Src("X", "raw")}, pre)
         fit_rets = normal_returns(traces)
         locf = ctx.loc(k.module, fn)
@@ -778,6 +869,23 @@ def r1_intervals(ctx, repo):
             ctx.check(ok if len(pcs) == 1 else None, "R1", tag + ":fit-pieces",
                       "fitted pieces = np.array_split(arange(n_timepoints), intervals): a partition of the whole series",
                       "fitted pieces are %r, expected array_split(arange(n_timepoints), intervals)" % (table,), locf)
+        if tag.endswith("[n_intervals=other]") and isinstance(table, Cols) and table.items and isinstance(table.items[0], EVec):
+            size = getattr(table.items[0], "size", None)
+            cnt = size.items[0] if isinstance(size, Tup) and len(size.items) == 1 else size
+            good = None
+            if isinstance(cnt, CallV) and cnt.name.endswith("._get_n_from_n_timepoints"):
+                b = bound(cnt, ["n_timepoints", "n"])
+                good = b.get("n_timepoints") == m and b.get("n") == attrs["n_intervals"]
+            elif cnt is not None and not any(isinstance(x, CallV) and x.name.endswith("._get_n_from_n_timepoints") for x in walk(cnt)):
+                good = False
+            ctx.check(good, "R1", tag + ":count", "the number of fitted intervals is _get_n_from_n_timepoints(n_timepoints, n_intervals)",
+                      "the number of fitted intervals is %r, expected _get_n_from_n_timepoints(n_timepoints, self.n_intervals)" % (cnt,), locf)
+        for j, (lo_, hi_, before) in enumerate(getattr(it, "randints", [])):
+            q = lo_ - (hi_ - 1)
+            ctx.check(relevant(before, q).entails(q) is not None, "R1", tag + ":draw-range#%d" % (j + 1),
+                      "randint(%r, %r) always has a non-empty range" % (lo_, hi_),
+                      "randint(%r, %r) can be asked for an empty range (low > high - 1 is possible): the earlier draw is not "
+                      "bounded so that the interval fits into the series" % (lo_, hi_), locf)
         st0 = State(facts=fs.facts, heap=fs.heap)
         hit = repo.lookup_method(cls, "transform")
         kt, ft = hit
@@ -798,7 +906,8 @@ def r1_intervals(ctx, repo):
     sv.attrs.update(opts)
     pre = Facts()
     pre.add_cmp(sym("min_length"), ">=", 1, "min_length validated by check_window_length")
-    pre.add_cmp(m, ">=", 1, "series are non-empty")
+    pre.add_cmp(m, ">=", 2, "series have at least two points")
+    pre.add_cmp(m, ">=", sym("min_length"), "series are at least min_length long")
     traces, fst, k, fn = run_method(repo, it, sv, "fit", {"X": Src("X", "raw"), "y": Opq("y")}, pre)
     locf = ctx.loc(k.module, fn)
     tag = "RandomIntervalFeatureExtractor"
@@ -827,6 +936,62 @@ def r1_intervals(ctx, repo):
             X3 = Src("X", "np3", [n, ONE, m])
             check_slices(ctx, tag + ".transform:slice", it, X3, 2, rets[0][0].facts, loct, fitted_len=m)
 
+
+
+def r1_feature_columns(ctx, repo):
+    """RandomIntervalFeatureExtractor.transform: one output column per (feature, interval) pair, filled in loop order."""
+    fe = repo.cls(EXTRACT + ":RandomIntervalFeatureExtractor")
+    fn = repo.func(EXTRACT, "RandomIntervalFeatureExtractor.transform")
+    loc = ctx.loc(fe.module, fn)
+    it = mk_interp(repo, no_inline=NO_INLINE + ("_check_features",))
+    sv = SelfV(fe)
+    sv.attrs.update(intervals_=Rows("intervals_"))
+    traces, fst, k, f2 = run_method(repo, it, sv, "transform", {"X": Src("X", "raw")})
+    tag = "RandomIntervalFeatureExtractor.transform"
+    floops = [l for l in {id(l): l for e in it.events for l in e.loops}.values()
+              if isinstance(l.it, CallV) and l.it.name.endswith("._check_features")]
+    if len(floops) != 1:
+        ctx.undecided("R2", tag + ":features", "the loop over _check_features(self.features) was not found", loc)
+    else:
+        a = floops[0].it.args[0] if len(floops[0].it.args) == 1 and not floops[0].it.kwargs else None
+        ctx.check(match(a, Opq("self.features")), "R2", tag + ":features", "the features applied are _check_features(self.features)",
+                  "the features applied are _check_features(%r), expected the features option" % (a,), loc)
+    iloops = [l for l in {id(l): l for e in it.events for l in e.loops}.values() if isinstance(l.it, Rows)]
+    stores = dedupe([e for e in it.events if e.kind == "store" and iloops and iloops[0] in e.loops and len(e.spec) == 2
+                     and e.spec[0] == ("a",)])
+    c = tag + ":column-counter"
+    if len(iloops) != 1 or not stores or not floops or any(floops[0] not in x.loops or x.spec[1] != stores[0].spec[1] for x in stores):
+        ctx.undecided("R1", c, "the store of one feature column per (feature, interval) pair was not found", loc)
+        return
+    sel = stores[0].spec[1]
+    name = sel[1].tag[len("loop-carried:"):] if sel[0] == "x" and isinstance(sel[1], Opq) and sel[1].tag.startswith("loop-carried:") else None
+    if name is None:
+        ctx.undecided("R1", c, "the column index %r is not a running counter" % (sel,), loc)
+        return
+    outer, inner = floops[0].node, iloops[0].node
+    plain, aug, other = [], [], []
+    for nd in ast.walk(fn):
+        if isinstance(nd, ast.Assign) and any(isinstance(t, ast.Name) and t.id == name for t in nd.targets):
+            plain.append(nd)
+        elif isinstance(nd, ast.AugAssign) and isinstance(nd.target, ast.Name) and nd.target.id == name:
+            aug.append(nd)
+        elif isinstance(nd, ast.Name) and nd.id == name and isinstance(nd.ctx, (ast.Store, ast.Del)) \
+                and not any(nd in ast.walk(x) for x in plain + aug):
+            other.append(nd)
+    ok = (len(plain) == 1 and plain[0] in fn.body and isinstance(plain[0].value, ast.Constant) and plain[0].value.value == 0
+          and outer in fn.body and fn.body.index(plain[0]) < fn.body.index(outer)
+          and len(aug) == 1 and isinstance(aug[0].op, ast.Add) and isinstance(aug[0].value, ast.Constant) and aug[0].value.value == 1
+          and isinstance(inner, ast.For) and aug[0] in inner.body and not other)
+    why = "the counter starts at 0 before the feature loop and advances by one per (feature, interval) pair"
+    if ok:
+        g = CFG(_B(inner.body))
+        tgt = [nd for nd in g.nodes if nd.stmt is aug[0]]
+        ok = bool(tgt) and g.must_pass(lambda nd: nd is tgt[0])
+        for x in stores:
+            st_node = g.node_of(x.node)
+            ok = ok and st_node is not None and any(nd is tgt[0] for nd in g.may_reach_after(st_node, lambda nd: True))
+    ctx.check(ok, "R1", c, why, "the column counter %r is not initialised once before the feature loop and advanced by exactly one after "
+              "each (feature, interval) column is stored: columns are overwritten or skipped" % name, loc)
 
 
 # =============================================================================== R2
@@ -898,7 +1063,8 @@ def r2_imputer(ctx, repo):
                 for y in (x.elts if isinstance(x, (ast.List, ast.Tuple, ast.Set)) else [x]):
                     if isinstance(y, ast.Constant) and isinstance(y.value, str):
                         literals.add(y.value)
-    names = sorted(set(IMPUTER_TABLE) | literals) + ["<unknown>"]
+    names = ["<unknown>"] + sorted(set(IMPUTER_TABLE) | literals)
+    default_raises = set()
     for name in names:
         c = "Imputer.transform[method=%s]" % name
         it = mk_interp(repo, no_inline=NO_INLINE + ("_check_method",))
@@ -906,46 +1072,23 @@ def r2_imputer(ctx, repo):
         sv.attrs.update(method=KS(name, "self.method"), missing_values=K(None))
         Z = Src("Z", "series")
         traces, fst, k, f2 = run_method(repo, it, sv, "transform", {pname: Z})
-        rets = normal_returns(traces)
+        rets = distinct_returns(traces)
+        raised = {id(e.node) for e in it.events if e.kind == "raise" and e.func is fn}
+        if name == "<unknown>":
+            ctx.check(not rets, "R2", c + ":rejected", "an unknown rule name is rejected on every path",
+                      "an unknown rule name is not rejected: transform returns %r" % ([v for _, v in rets][:1],), loc)
+            default_raises = raised
+            continue
         if name not in IMPUTER_TABLE:
-            ctx.check(not rets, "R2", c + ":rejected", "an undocumented rule name is rejected on every path",
-                      "rule name %r is not documented but transform returns %r" % (name, [v for _, v in rets][:1]), loc)
+            ctx.info("Imputer.transform compares self.method with the undocumented literal %r (not judged)" % name)
             continue
         if not rets:
             ctx.violation("R2", c + ":operator", "the documented rule name %r is rejected on every path" % name, loc)
             continue
-        s, ret = one_return(ctx, "R2", c + ":value", traces, loc)
-        if ret is None:
-            continue
-        op, kw, what = IMPUTER_TABLE[name]
-        core = peel_edge(ret)
-        if not isinstance(core, CallV):
-            ctx.violation("R2", c + ":operator", "no imputation operator is applied for %r: transform returns %r" % (name, ret), loc)
-            continue
-        if op in ("fillna", "interpolate"):
-            ok = core.name == op and core.recv == Z
-            b = bound(core, FILLNA_SIG if op == "fillna" else INTERPOLATE_SIG) if core.name == op else {}
-            ctx.check(ok, "R2", c + ":operator", "%r -> Z.%s(...)" % (name, op),
-                      "%r dispatches to %s on %r, documented Z.%s" % (name, core.name, core.recv, op), loc)
-            if not ok:
-                continue
-            got = b.get(kw)
-            if what == "self.value":
-                good = match(got, Opq("self.value"))
-            elif what == "self.method":
-                good = isinstance(got, KS) and got.origin == "self.method"
-            else:
-                agg = what[2:-2]
-                good = isinstance(got, CallV) and got.name == agg and got.recv == Z and not got.args and not got.kwargs
-            ctx.check(good and (set(b) == {kw}), "R2", c + ":argument", "%s(%s=%s)" % (op, kw, what),
-                      "%s is called with %r, documented %s=%s only" % (op, b, kw, what), loc, witness={"bound": repr(b)})
-        elif op == "apply":
-            a0 = core.arg(0, "func")
-            ctx.check(core.name == "apply" and core.recv == Z and isinstance(a0, Opq) and a0.tag == "lambda:_get_random", "R2",
-                      c + ":operator", "'random' -> element-wise replacement by self._get_random",
-                      "'random' dispatches to %r" % (core,), loc)
-        else:
-            imputer_forecast(ctx, repo, it, c, name, ret, Z, loc)
+        ctx.check(not (raised & default_raises), "R2", c + ":total", "the documented name never reaches the unknown-method error",
+                  "for some option values the documented rule name %r falls through the dispatch to the unknown-method error" % name, loc)
+        for s, ret in rets:
+            imputer_return(ctx, repo, it, c, name, ret, Z, loc)
     # 'random': values between the minimum and the maximum of the series, drawn from check_random_state(self.random_state)
     gr = cls.methods.get("_get_random")
     if gr is None:
@@ -1000,6 +1143,46 @@ def r2_imputer(ctx, repo):
                   "the rule is applied to %r, expected Z.replace(to_replace=self.missing_values, value=np.nan)" % (rep,), loc)
 
 
+def imputer_return(ctx, repo, it, c, name, ret, Z, loc):
+    op, kw, what = IMPUTER_TABLE[name]
+    core = peel_edge(ret)
+    if not isinstance(core, CallV):
+        ctx.violation("R2", c + ":operator", "no imputation operator is applied for %r: transform returns %r" % (name, ret), loc)
+        return
+    if op in ("fillna", "interpolate"):
+        ok = core.name == op and core.recv == Z
+        b = bound(core, FILLNA_SIG if op == "fillna" else INTERPOLATE_SIG) if core.name == op else {}
+        ctx.check(ok, "R2", c + ":operator", "%r -> Z.%s(...)" % (name, op),
+                  "%r dispatches to %s on %r, documented Z.%s" % (name, core.name, core.recv, op), loc)
+        if not ok:
+            return
+        got = b.get(kw)
+        if what == "self.value":
+            good = match(got, Opq("self.value"))
+        elif what == "self.method":
+            good = isinstance(got, KS) and got.origin == "self.method"
+        else:
+            agg = what[2:-2]
+            good = isinstance(got, CallV) and got.name == agg and got.recv == Z and not got.args and not got.kwargs
+        ctx.check(good and (set(b) == {kw}), "R2", c + ":argument", "%s(%s=%s)" % (op, kw, what),
+                  "%s is called with %r, documented %s=%s only" % (op, b, kw, what), loc, witness={"bound": repr(b)})
+    elif op == "apply":
+        a0 = core.arg(0, "func")
+        good = core.name == "apply" and core.recv == Z
+        if good:
+            fr = Frame(it.repo.module(IMPUTE), it.repo.func(IMPUTE, "Imputer.transform"), None, None)
+            res = it.call_value(a0, [Opq("probe")], {}, None, State(), fr) if isinstance(a0, (LamV, LocalFn, BoundM)) else NotImplemented
+            if res is NotImplemented:
+                good = None if a0 is not None and not isinstance(a0, (K, Lin)) else False
+            else:
+                hits = [x for x in walk(res) if isinstance(x, CallV) and x.name == "_get_random" and isinstance(x.recv, SelfV)]
+                good = bool(hits) and all(len(x.args) == 1 and x.args[0] == Z and not x.kwargs for x in hits)
+        ctx.check(good, "R2", c + ":operator", "'random' -> element-wise replacement by self._get_random(Z)",
+                  "'random' dispatches to %r" % (core,), loc)
+    else:
+        imputer_forecast(ctx, repo, it, c, name, ret, Z, loc)
+
+
 def imputer_forecast(ctx, repo, it, c, name, ret, Z, loc):
     core = peel_edge(ret)
     if not (isinstance(core, CallV) and core.name == "fillna"):
@@ -1021,7 +1204,8 @@ def imputer_forecast(ctx, repo, it, c, name, ret, Z, loc):
     pb = bound(pred, ["fh", "X", "return_pred_int", "alpha"])
     fh = pb.get("fh")
     want = Opq("neg-range", [Rng(ZERO, sym("m(Z)"))])
-    ctx.check(fh == want and set(pb) == {"fh"}, "R2", c + ":horizon", "in-sample horizon -arange(len(Z)): one step per observation",
+    hv = True if fh == want else (False if isinstance(fh, Rng) or isinstance(fh, Opq) and fh.tag == "neg-range" else None)
+    ctx.check(hv and set(pb) == {"fh"}, "R2", c + ":horizon", "in-sample horizon -arange(len(Z)): one step per observation",
               "prediction horizon is %r, expected -arange(len(Z))" % (fh,), loc)
     fits = [x for x in it.calls if x.name == "fit" and x.recv == fc]
     fitted = None
@@ -1095,7 +1279,11 @@ def r2_simple(ctx, repo):
         s, ret = one_return(ctx, "R2", cname + ".transform:value", traces, loc)
         if ret is None:
             continue
-        ok = isinstance(ret, CallV) and ret.name == ext and ret.args == [Z] and ret.kwargs == kwargs
+        sig = {"numpy.cos": ["x"], "numpy.mean": ["a", "axis", "dtype", "out", "keepdims"]}[ext]
+        b = bound(ret, sig) if isinstance(ret, CallV) else {}
+        want = dict(kwargs)
+        want[sig[0]] = Z
+        ok = isinstance(ret, CallV) and ret.name == ext and b == want
         ctx.check(ok, "R2", cname + ".transform:operator", "%s -> %s(validated input)" % (cname, ext),
                   "%s returns %r, expected %s(Z%s)" % (cname, ret, ext, "".join(", %s=%r" % kv for kv in kwargs.items())), loc)
     # Tabularizer / ColumnConcatenator
@@ -1132,6 +1320,16 @@ def r2_simple(ctx, repo):
     # TabularToSeriesAdaptor
     cls = repo.cls(ADAPT + ":TabularToSeriesAdaptor")
     mod = cls.module
+    hf = repo.func(ADAPT, "_from_series_to_2d_numpy")
+    it = mk_interp(repo)
+    traces, _ = it.run_function(Frame(mod, hf), {astq.param_names(hf)[0]: Z}, State())
+    vals = [v for _, v in distinct_returns(traces)]
+    good = None
+    if len(vals) == 1 and isinstance(vals[0], CallV) and vals[0].name == "reshape" and vals[0].recv == Z and not vals[0].kwargs:
+        a = vals[0].args[0].items if len(vals[0].args) == 1 and isinstance(vals[0].args[0], Tup) else vals[0].args
+        good = [as_lin_val(x) for x in a] == [Lin.c(-1), ONE]
+    ctx.check(good, "R2", "adapt._from_series_to_2d_numpy:shape", "a univariate series becomes one column (n_timepoints, 1)",
+              "the 2-d view of a univariate series is %r, expected reshape(-1, 1): time points are the samples" % (vals,), ctx.loc(mod, hf))
     it = mk_interp(repo, no_inline=NO_INLINE + ("_from_series_to_2d_numpy", "_from_2d_numpy_to_series"))
     sv = SelfV(cls)
     fn = repo.func(ADAPT, "TabularToSeriesAdaptor.fit")
@@ -1168,6 +1366,40 @@ def r2_simple(ctx, repo):
         if ok:
             ctx.check(b.get("index") == Opq("attr:index", [Z]), "R2", c + ":index", "result carries the index of the input series",
                       "result index is %r, expected Z.index" % (b.get("index"),), loc)
+
+
+def r2_segmenter_forwarding(ctx, repo):
+    """RandomIntervalSegmenter.fit hands its options to the interval generators under the right names."""
+    cls = repo.cls(SEGMENT + ":RandomIntervalSegmenter")
+    mod = cls.module
+    gens = {"fixed": repo.func(SEGMENT, "_rand_intervals_fixed_n"), "random": repo.func(SEGMENT, "_rand_intervals_rand_n")}
+    for scen, nint in (("fixed", KS("log", "self.n_intervals")), ("random", KS("random", "self.n_intervals"))):
+        it = mk_interp(repo, no_inline=NO_INLINE + ("_rand_intervals_fixed_n", "_rand_intervals_rand_n"))
+        sv = SelfV(cls)
+        attrs = {"n_intervals": nint, "min_length": sym("min_length") if scen == "fixed" else K(None),
+                 "max_length": sym("max_length") if scen == "fixed" else K(None)}
+        sv.attrs.update(attrs)
+        traces, fst, k, fn = run_method(repo, it, sv, "fit", {"X": Src("X", "raw")})
+        loc = ctx.loc(mod, fn)
+        c = "RandomIntervalSegmenter.fit[%s]" % scen
+        gname = "sktime.transformations.panel.segment." + gens[scen].name
+        calls = [x for x in it.calls if x.name == gname]
+        table = attr_after(traces, sv, "intervals_")
+        if not calls or table is None or not any(table == x for x in calls):
+            ctx.check(None if calls else False, "R2", c + ":generator", "", "intervals_ is %r, expected the result of %s" % (table, gens[scen].name), loc)
+            continue
+        cv = [x for x in calls if table == x][0]
+        b = bound(cv, astq.param_names(gens[scen]))
+        want = {"x": Arr("time_index(X)", sym("m(X)"), "index"), "random_state": Opq("self.random_state")}
+        if scen == "fixed":
+            want.update(min_length=sym("min_length"), max_length=sym("max_length"))
+        for p, w in want.items():
+            ctx.check(match(b.get(p), w), "R2", c + ":forward:" + p, "%s receives %s" % (gens[scen].name, p),
+                      "%s is called with %s=%r, expected %r" % (gens[scen].name, p, b.get(p), w), loc)
+        if scen == "fixed":
+            g = b.get("n_intervals")
+            ctx.check(None if isinstance(g, Alt) else (isinstance(g, KS) and g.origin == "self.n_intervals"), "R2", c + ":forward:n_intervals",
+                      "n_intervals receives self.n_intervals", "n_intervals=%r, expected self.n_intervals" % (g,), loc)
 
 
 # ------------------------------------------------------------ R2: every option is read
@@ -1267,10 +1499,26 @@ def first_extent(v, it):
     if isinstance(v, AccList):
         return it.acc_len(v)
     if isinstance(v, ListV):
+        if v.filtered:
+            return None
         if isinstance(v.it, Rng):
             return v.it.length()
         return first_extent(v.it, it)
+    if isinstance(v, ZipV):
+        return seq_len(v, it)
     return None
+
+
+def position_loop(l, n, it):
+    """Does the loop variable run over the positions 0..n-1 of the instances, in order?"""
+    if l.var is None:
+        return False
+    if isinstance(l.it, Rng):
+        return l.it == Rng(ZERO, n)
+    if reordered(l.it) is not None:
+        return False
+    e = first_extent(l.it, it)
+    return e is not None and e == n
 
 
 def r3_method(ctx, repo, rel, cname, meth, args, min_loops, attrs=None, extra_no_inline=(), via_init=False, n=None):
@@ -1312,7 +1560,7 @@ def r3_method(ctx, repo, rel, cname, meth, args, min_loops, attrs=None, extra_no
             vs = _sym(l.var)
             for e in events:
                 if l in e.loops and e.kind in ("load", "store") and e.spec and not isinstance(e.spec, str) \
-                        and aligned_base(e, aligned) and e.spec[0][0] == "i" and vs in e.spec[0][1].symbols():
+                        and aligned_base(e, aligned) and e.spec[0][0] == "i" and it.depends(e.spec[0][1], vs):
                     uses = True
         if direct or uses:
             cands.append(l)
@@ -1327,6 +1575,8 @@ def r3_method(ctx, repo, rel, cname, meth, args, min_loops, attrs=None, extra_no
         if isinstance(l.it, Rng):
             ctx.check(l.it == Rng(ZERO, n), "R3", c + ":range", "iterates range(n_instances): every instance once, in order",
                       "iterates %r, expected range(n_instances) = %r" % (l.it, Rng(ZERO, n)), lloc)
+        elif l.kind == "comp-filtered":
+            ctx.violation("R3", c + ":range", "the comprehension filters the instances: the output has fewer rows than the input", lloc)
         elif reordered(l.it) is not None:
             ctx.violation("R3", c + ":range", "iterates a re-ordered view of the instances (%r): output rows no longer follow the input order"
                           % (l.it,), lloc)
@@ -1352,7 +1602,7 @@ def r3_method(ctx, repo, rel, cname, meth, args, min_loops, attrs=None, extra_no
         outs = 0
         badw = None
         for e in inside:
-            if e.kind == "store" and e.spec and e.spec[0][0] == "i" and (aligned_base(e, aligned) or _sym(l.var) in e.spec[0][1].symbols()):
+            if e.kind == "store" and e.spec and e.spec[0][0] == "i" and (aligned_base(e, aligned) or it.depends(e.spec[0][1], _sym(l.var))):
                 if innermost_inst(e, cands) is not l:
                     continue
                 outs += 1
@@ -1364,7 +1614,9 @@ def r3_method(ctx, repo, rel, cname, meth, args, min_loops, attrs=None, extra_no
                 accs.setdefault(id(e.base), (e.base, []))[1].append(e)
         for acc, evs in accs.values():
             outs += 1
-            if len(evs) != 1:
+            if acc.persist:
+                badw = "the result list outlives the call (%s): rows of an earlier call / instance are still in it" % acc.persist
+            elif len(evs) != 1:
                 badw = "%d append sites add to the same result list in one iteration" % len(evs)
             elif isinstance(l.node, ast.For) and not must_execute(l.node.body, evs[0].node):
                 badw = "the result of an instance is appended only on some paths through the loop body (rows would shift)"
@@ -1381,6 +1633,22 @@ def r3_method(ctx, repo, rel, cname, meth, args, min_loops, attrs=None, extra_no
                             and any(l in lp for _, lp, _, _ in x.appends):
                         badw = "a list created outside the loop collects partial results of every instance and is emitted per row: " \
                                "row i contains the results of rows < i"
+        shared = [b for b in {id(e.base): e.base for e in inside if e.kind == "store" and isinstance(e.base, Buf)}.values()
+                  if l not in b.created_loops and any(l in x.loops for x in b.stores)
+                  and not any(x.spec and x.spec[0][0] == "i" for x in b.stores)]
+        for e in inside:
+            if e.kind in ("append", "comp-elem", "store") and e.value is not None and shared:
+                if any(any(x is b for x in walk(e.value)) for b in shared if b is not e.base):
+                    badw = "one array allocated outside the loop is overwritten and emitted for every instance: all output rows " \
+                           "alias the same buffer (and keep residue of longer earlier rows)"
+        for e in inside:
+            if e.kind == "append" and e.base.persist and innermost_inst(e, cands) is l and l in e.base.created_loops:
+                badw = "a list that outlives the call (%s) collects the values of this row" % e.base.persist
+        for e in inside:
+            if e.kind == "mutate" and isinstance(e.base, AccList) and l not in e.base.created_loops \
+                    and e.spec in ("insert", "pop", "remove", "sort", "reverse", "clear"):
+                outs += 1
+                badw = "the result list is modified by %s() inside the loop: its order is not the order of the instances" % e.spec
         if l.kind == "comp":
             outs += 1
         if badw:
@@ -1398,6 +1666,33 @@ def r3_method(ctx, repo, rel, cname, meth, args, min_loops, attrs=None, extra_no
                 ctx.check(not car, "R3", c + ":state", "no local carries a value from one instance to the next",
                           "local(s) %s keep their value from the previous instance when the next one is processed: "
                           "output row i depends on rows < i" % ", ".join(car), lloc, witness={"carried": car})
+    # ---- column loops: column d of the output is computed from column d of the input
+    ccount = Lin.sym("c(X)")
+    cidx = 0
+    for l in sorted(loops.values(), key=lambda l: (getattr(l.node, "lineno", 0), getattr(l.node, "col_offset", 0))):
+        by_pos = isinstance(l.it, Rng) and l.it == Rng(ZERO, ccount) and l.var is not None
+        by_label = isinstance(l.it, Opq) and l.it.tag == "attr:columns" and l.it.args and isinstance(l.it.args[0], Src)
+        if not (by_pos or by_label):
+            continue
+        own = ("i", l.var) if by_pos else ("x", Opq("elem", [l.it]))
+        sels = []
+        for e in events:
+            if l in e.loops and e.kind == "load" and isinstance(e.base, Src) and e.base.kind in ("nested", "raw", "either") and e.spec:
+                sel = (e.spec[1] if len(e.spec) > 1 else None) if e.how == "iloc" else (e.spec[0] if len(e.spec) == 1 else None)
+                if sel is not None and sel != ("a",):
+                    sels.append(sel)
+        if not sels:
+            continue
+        cidx += 1
+        c = "%s:column-loop#%d:reads" % (base, cidx)
+        lloc = "%s:%s" % (k.module.relpath, getattr(l.node, "lineno", "?"))
+        wrong = [x for x in sels if x != own]
+        verdict = True
+        if wrong:
+            verdict = False if any(x[0] == "i" for x in wrong) else None
+        ctx.check(verdict, "R3", c, "every read of the input inside the column loop selects the loop's own column",
+                  "inside the loop over the columns the input is read at column %r instead of the loop's own column: output "
+                  "column d is not computed from input column d" % ((wrong or [None])[0],), lloc)
     # ---- assembly: the per-instance results reach the return value in their order
     outs_ = []
     for e in events:
@@ -1430,7 +1725,6 @@ def walk_with_stores(v, events):
             continue
         seen.add(id(x))
         out.append(x)
-        from ._c14_dom import children
         stack.extend(children(x))
         for e in events:
             if e.kind == "store" and e.base is x and e.value is not None:
@@ -1491,21 +1785,28 @@ def r3_all(ctx, repo):
     r3_method(ctx, repo, COMPOSE, "SeriesToPrimitivesRowTransformer", "transform", {"X": X}, 1)
     r3_method(ctx, repo, COMPOSE, "SeriesToSeriesRowTransformer", "transform", {"X": X}, 1)
     r3_method(ctx, repo, PAA, "PAA", "_perform_paa_along_dim", {"X": Src("X", "nested")}, 1, attrs={"num_intervals": sym("k")})
-    r3_method(ctx, repo, SLOPE, "SlopeTransformer", "transform", {"X": X}, 2, attrs={"num_intervals": sym("k")},
+    r3_method(ctx, repo, PAA, "PAA", "transform", {"X": X}, 1, attrs={"num_intervals": sym("k")}, extra_no_inline=("_check_parameters",))
+    r3_method(ctx, repo, SLOPE, "SlopeTransformer", "transform", {"X": X}, 1, attrs={"num_intervals": sym("k")},
               extra_no_inline=("_get_gradients_of_lines", "_check_parameters"))
     r3_method(ctx, repo, EXTRACT, "DerivativeSlopeTransformer", "transform", {"X": X}, 1)
     r3_method(ctx, repo, EXTRACT, "PlateauFinder", "transform", {"X": X}, 1, via_init=True)
-    r3_method(ctx, repo, SEGMENT, "SlidingWindowSegmenter", "transform", {"X": X}, 3, attrs={"window_length": W})
-    r3_method(ctx, repo, PADDER, "PaddingTransformer", "transform", {"X": X}, 2, attrs={"pad_length_": sym("pad_length_")})
-    r3_method(ctx, repo, TRUNC, "TruncationTransformer", "transform", {"X": X}, 2,
+    r3_method(ctx, repo, SEGMENT, "SlidingWindowSegmenter", "transform", {"X": X}, 1, attrs={"window_length": W})
+    r3_method(ctx, repo, PADDER, "PaddingTransformer", "transform", {"X": X}, 1, attrs={"pad_length_": sym("pad_length_")})
+    r3_method(ctx, repo, TRUNC, "TruncationTransformer", "transform", {"X": X}, 1,
               attrs={"lower_": sym("lower_"), "upper": K(None)})
 
 
 def run(ctx):
     repo = ctx.repo
-    ctx.explain("C14 (partial): abstract interpretation of the anchored transformers into array terms; R1 length/position "
-                "maps, R2 rule-name <-> operator tables and option forwarding, R3 row correspondence. Numeric formulas "
-                "(PAA means, interpolated values, ACF, slopes) are not decided.")
+    ctx.explain("C14 (partial): every anchored transformer method is interpreted symbolically (affine index domain + array terms: "
+                "fresh buffers with their slice stores, normalised subscripts, np.pad, as_strided, linspace grids, array_split "
+                "pieces, random draws with their bounds, lists built by comprehension / append) per configuration scenario. "
+                "R1 decides the length / position maps of pad, truncate, sliding windows, interpolation grids and interval slices "
+                "(identities of affine normal forms, guards tight, reads in bounds, random draws feasible); R2 the rule-name <-> "
+                "operator tables of the imputer and the one-line transformers, keyword forwarding to statsmodels / the interval "
+                "generators / the wrapped estimators and that every constructor option is read; R3 that every per-instance loop "
+                "reads and writes its own row, in input order, without state carried between rows. The numeric formulas "
+                "(PAA means, interpolated values, autocorrelations, slopes) are not decided.")
     ctx.assume("numpy: np.full/zeros create fresh arrays of the given shape; slice assignment copies position-wise; np.pad(x, p, "
                "mode='edge') repeats the end values p times on both ends; as_strided(x, shape, (s, s)) has element (j, k) = x[j + k]; "
                "np.arange / range / np.linspace(a, b, n) grids; np.array_split yields consecutive index arrays covering the input; "
@@ -1521,11 +1822,13 @@ def run(ctx):
     r1_sliding(ctx, repo)
     r1_interpolate(ctx, repo)
     r1_intervals(ctx, repo)
+    r1_feature_columns(ctx, repo)
     r2_imputer(ctx, repo)
     r2_acf(ctx, repo)
     r2_simple(ctx, repo)
+    r2_segmenter_forwarding(ctx, repo)
     r2_options(ctx, repo)
     r3_all(ctx, repo)
-    ctx.floor("R1", 60)
-    ctx.floor("R2", 105)
-    ctx.floor("R3", 52)
+    ctx.floor("R1", 68)
+    ctx.floor("R2", 126)
+    ctx.floor("R3", 67)
